@@ -5,6 +5,13 @@
 //! (mismatches are recorded, never panicked on), the user area is filled with
 //! 0xDE and the block is parked in a FIFO quarantine so that a dangling
 //! pointer keeps reading poison instead of a recycled object.
+unsafe extern "C" {
+  fn _exit(status: i32) -> !;
+}
+
+/// exit status of a worker that ran into its address space limit
+pub const OOM_EXIT_STATUS: i32 = 77;
+
 use std::alloc::{GlobalAlloc, Layout, System};
 use std::cell::Cell;
 use std::sync::atomic::{AtomicBool, AtomicI64, AtomicU64, AtomicUsize, Ordering};
@@ -89,7 +96,9 @@ unsafe impl GlobalAlloc for VerifAlloc {
       let (total, offset) = total_layout(layout.size(), layout.align());
       let base = System.alloc(total);
       if base.is_null() {
-        return base;
+        // the driver caps the worker's address space: running into the cap is reported through a reserved exit
+        // status (the request is then inconclusive) instead of the abort Rust's allocation error handler would raise
+        _exit(OOM_EXIT_STATUS);
       }
       let user = base.add(offset);
       let hdr = user.sub(HDR) as *mut Hdr;
